@@ -58,6 +58,9 @@ pub enum Form {
     NewInfoSpanSync,
     GuardFn,
     Manual,
+    /// a hand-made guard with the public default completion (`completion::default(..)`), its `with_tpl`,
+    /// `with_lvl`, `with_panic_lvl` setters applied in an order and subset derived from the span number
+    DefaultCompl,
 }
 
 #[derive(Clone, Copy, Debug, PartialEq)]
@@ -140,6 +143,7 @@ pub struct Rec {
     pub strand: u32,
     pub via_completion: Option<u32>,
     pub xprop: Option<i64>,
+    pub msg: String,
 }
 
 #[derive(Clone, Debug)]
@@ -164,6 +168,8 @@ pub struct SpanInfo {
     pub expect_completion: Option<u32>,
     pub expect_xprop: Option<Option<i64>>,
     pub expect_lvl: Option<Option<&'static str>>,
+    /// the rendered message, when the completion replaces the template (None inside: the span's own)
+    pub expect_msg: Option<Option<String>>,
     /// the span was actually unwound by a panic (its own or one of a nested node)
     pub unwound: bool,
 }
@@ -239,6 +245,7 @@ fn record_event(log: &Shared, evt: &emit::Event<impl Props>, via: Option<u32>) {
         strand: cur_strand(),
         via_completion: via,
         xprop: p.pull::<i64, _>("x"),
+        msg: evt.msg().to_string(),
     };
     let mut l = lg(log);
     l.trace.push(format!(
@@ -463,6 +470,7 @@ fn new_span_info(w: &World, st: &Strand, sid: u32, form: Form, exit: Exit, enabl
         expect_completion: None,
         expect_xprop: None,
         expect_lvl: None,
+        expect_msg: None,
         unwound: false,
     };
     let mut l = lg(&w.log);
@@ -853,6 +861,46 @@ fn run_span_sync(w: &Arc<World>, st: &mut Strand, n: &S) {
             }
         }
         Form::Manual => run_manual(w, st, sid, enabled, ops, ix),
+        Form::DefaultCompl => {
+            use emit::Level;
+            // which setters are used and in which order
+            const ORDERS: [[u8; 3]; 6] = [[0, 1, 2], [0, 2, 1], [1, 0, 2], [1, 2, 0], [2, 0, 1], [2, 1, 0]];
+            let order = ORDERS[(sid % 6) as usize];
+            let skip = (sid / 6) % 4; // 0: all three, 1: no template, 2: no level, 3: no panic level
+            let tpl = emit::Template::literal("completed through the default completion");
+            let mut c = emit::span::completion::default(w.rt.emitter(), w.rt.ctxt().clone());
+            for step in order {
+                c = match step {
+                    0 if skip != 1 => c.with_tpl(tpl.by_ref()),
+                    1 if skip != 2 => c.with_lvl(Level::Debug),
+                    2 if skip != 3 => c.with_panic_lvl(Level::Warn),
+                    _ => c,
+                };
+            }
+            {
+                let mut l = lg(&w.log);
+                l.trace.push(format!("{}: span {sid}: default completion, setter order {order:?}, skipped {skip}", st.name));
+                // what a normal completion must carry; the unwinding case is settled below
+                l.spans[ix].expect_lvl = Some(if skip != 2 { Some("debug") } else { None });
+                l.spans[ix].expect_msg = Some(if skip != 1 { Some("completed through the default completion".to_string()) } else { None });
+            }
+            let (mut guard, frame) = SpanGuard::new(
+                w.rt.filter(),
+                w.rt.ctxt().clone(),
+                w.rt.clock().clone(),
+                w.rt.rng().clone(),
+                c,
+                emit::props! { sid },
+                emit::path!("manual::default_completion"),
+                format!("span {sid}"),
+                emit::props! { sid },
+            );
+            let st_inner: &mut Strand = &mut *st;
+            frame.call(move || {
+                guard.start();
+                body_sync(w, st_inner, sid, enabled, body, exit);
+            });
+        }
     }));
     w.mark("after", sid);
     if r.is_err() {
@@ -864,7 +912,11 @@ fn run_span_sync(w: &Arc<World>, st: &mut Strand, n: &S) {
         {
             let mut l = lg(&w.log);
             l.spans[ix].unwound = true;
-            if l.spans[ix].form == Form::PanicLvlFn {
+            if l.spans[ix].form == Form::DefaultCompl {
+                // panic level if one was set, else the error level
+                let skip = (sid / 6) % 4;
+                l.spans[ix].expect_lvl = Some(Some(if skip != 3 { "warn" } else { "error" }));
+            } else if l.spans[ix].form == Form::PanicLvlFn {
                 l.spans[ix].expect_lvl = Some(Some("warn"));
             } else if l.spans[ix].form == Form::ResultPanicLvlFn {
                 l.spans[ix].expect_lvl = Some(Some("debug"));
@@ -1290,7 +1342,7 @@ pub fn gen_nodes(ch: &mut Choices, cfg: &GenCfg, depth: u32, budget: &mut u32, n
                 if c05 { 0 } else { 2 },
                 if c05 { 0 } else { 2 },
                 if c05 { 0 } else { 2 },
-                1,
+                if c05 { 1 } else { 2 },
                 if c05 { 1 } else { 0 },
                 if TP { 2 } else { 0 },
             ]
@@ -1305,9 +1357,9 @@ pub fn gen_nodes(ch: &mut Choices, cfg: &GenCfg, depth: u32, budget: &mut u32, n
                 *next += 1;
                 let sid = *next;
                 let form = if c05 && is_async {
-                    *ch.pick(&[Form::Manual, Form::Manual, Form::Manual, Form::SyncFn, Form::ResultFn, Form::PanicLvlFn, Form::ResultPanicLvlFn, Form::InfoResultFn, Form::WhenFn, Form::WarnFn, Form::NewInfoSpanSync, Form::GuardFn, Form::NewSpanSync, Form::AsyncFn, Form::AsyncFn, Form::NewSpanAsync])
+                    *ch.pick(&[Form::Manual, Form::Manual, Form::Manual, Form::SyncFn, Form::ResultFn, Form::PanicLvlFn, Form::ResultPanicLvlFn, Form::InfoResultFn, Form::WhenFn, Form::WarnFn, Form::NewInfoSpanSync, Form::GuardFn, Form::NewSpanSync, Form::DefaultCompl, Form::DefaultCompl, Form::AsyncFn, Form::AsyncFn, Form::NewSpanAsync])
                 } else if c05 {
-                    *ch.pick(&[Form::Manual, Form::Manual, Form::Manual, Form::SyncFn, Form::ResultFn, Form::PanicLvlFn, Form::ResultPanicLvlFn, Form::InfoResultFn, Form::WhenFn, Form::WarnFn, Form::NewInfoSpanSync, Form::GuardFn, Form::NewSpanSync])
+                    *ch.pick(&[Form::Manual, Form::Manual, Form::Manual, Form::SyncFn, Form::ResultFn, Form::PanicLvlFn, Form::ResultPanicLvlFn, Form::InfoResultFn, Form::WhenFn, Form::WarnFn, Form::NewInfoSpanSync, Form::GuardFn, Form::NewSpanSync, Form::DefaultCompl, Form::DefaultCompl])
                 } else if is_async {
                     *ch.pick(&[Form::AsyncFn, Form::AsyncFn, Form::NewSpanAsync, Form::SyncFn, Form::NewSpanSync, Form::ResultFn, if TP { Form::SyncFn } else { Form::WhenFn }, Form::WarnFn])
                 } else {
@@ -1316,7 +1368,13 @@ pub fn gen_nodes(ch: &mut Choices, cfg: &GenCfg, depth: u32, budget: &mut u32, n
                 let exit = if c05 {
                     *ch.pick(&[Exit::Fall, Exit::Fall, Exit::Err, Exit::Panic])
                 } else {
-                    *ch.pick(&[Exit::Fall, Exit::Fall, Exit::Fall, Exit::Err])
+                    // a span body that ends by unwinding (caught further up) is part of every tree workload
+                    // (rare: most runs should get through all their tasks)
+                    match ch.weighted(&[12, 3, 1]) {
+                        0 => Exit::Fall,
+                        1 => Exit::Err,
+                        _ => Exit::Panic,
+                    }
                 };
                 let exit = match (form, exit) {
                     (Form::Manual, _) => Exit::Fall,
@@ -1715,6 +1773,21 @@ fn posthoc(w: &World, focus: &'static str) {
         if let Some(x) = s.expect_xprop {
             if rec.xprop != x {
                 v.push(("C05", "span_props", format!("span {} completed with x={:?}, last set is {x:?}", s.sid, rec.xprop)));
+            }
+        }
+        if s.form == Form::DefaultCompl {
+            if let Some(None) = s.expect_lvl {
+                if rec.lvl.is_some() {
+                    v.push(("C05", "completion_level", format!("span {} (exit {:?}) completed with lvl {:?} although no level was configured", s.sid, s.exit, rec.lvl)));
+                }
+            }
+            if let Some(Some(msg)) = &s.expect_msg {
+                if rec.msg != *msg {
+                    v.push(("C05", "completion_template", format!("span {} completed with message {:?}, the completion's template renders {msg:?}", s.sid, rec.msg)));
+                }
+            }
+            if s.unwound != (rec.err.as_deref() == Some("panicked")) {
+                v.push(("C05", "panic_error", format!("span {} (exit {:?}) completed with err {:?}", s.sid, s.exit, rec.err)));
             }
         }
         if let Some(Some(lvl)) = s.expect_lvl {
